@@ -449,7 +449,7 @@ def _run_ref(case, ctx):
     spec, n, off, fh = case["spec"], case["n"], case["off"], case["fh"]
     rng = np.random.default_rng([case["dseed"], 97])
     total = n + sum(u[1] for u in case["updates"])
-    full = zoo.make_series(rng, total, positive=True, off=off, kind=case["series"])
+    full = zoo.make_series(rng, total, positive=True, off=off, kind=case["series"], integer=case["dseed"] % 5 == 0)
     y = full.iloc[:n]
     real = zoo.build(spec)
     cutoff = int(y.index[-1])
